@@ -1,0 +1,30 @@
+//go:build verif
+
+package pilosa
+
+// Exported access to the executor's reduce functions for the /verif harness
+// (property C17). No behaviour, only access: every function forwards to the
+// unexported function or method named in its comment.
+
+// VerifReduceAdd forwards to (*ValCount).add (reducer of Sum).
+func VerifReduceAdd(a, b ValCount) ValCount { return a.add(b) }
+
+// VerifReduceSmaller forwards to (*ValCount).smaller (reducer of Min).
+func VerifReduceSmaller(a, b ValCount) ValCount { return a.smaller(b) }
+
+// VerifReduceLarger forwards to (*ValCount).larger (reducer of Max).
+func VerifReduceLarger(a, b ValCount) ValCount { return a.larger(b) }
+
+// VerifReduceRowIDsMerge forwards to RowIDs.merge (reducer of Rows).
+func VerifReduceRowIDsMerge(a, b RowIDs, limit int) RowIDs { return a.merge(b, limit) }
+
+// VerifReduceGroupCounts forwards to mergeGroupCounts (reducer of GroupBy).
+func VerifReduceGroupCounts(a, b []GroupCount, limit int) []GroupCount {
+	return mergeGroupCounts(a, b, limit)
+}
+
+// VerifReducePartition forwards to (*cluster).partition: the partition a
+// shard of an index belongs to (the key handed to the cluster's Hasher).
+func (api *API) VerifReducePartition(index string, shard uint64) int {
+	return api.cluster.partition(index, shard)
+}
